@@ -27,11 +27,14 @@ def tags_in(path):
 
 
 CONFIG_DEFINES = []
+CONFIG_STD = []  # language standard of the configuration under analysis (overrides the witness' default)
 
 
 def run_witness(path, defines=(), compiler="clang++", std="gnu++17", extra=()):
     """returns dict(tags=..., failed={tag: message}, broken=[messages], cmd=...)"""
     tags = tags_in(path)
+    if CONFIG_STD:
+        std = CONFIG_STD[0]
     cmd = [compiler, "-std=" + std, "-fsyntax-only", "-I" + os.path.join(REPO, "include"), "-I" + os.path.join(VERIF, "witness")]
     if "clang" in compiler:
         cmd += ["-ferror-limit=0", "-Wno-everything", "-fno-caret-diagnostics", "-fno-color-diagnostics"]
